@@ -13,3 +13,16 @@ Definition fcapa_case_premise (c : fcapa_case) : bool :=
   let Sc := fun s e => nth e (nth s (fa_sc c) []) [] in
   let Sp := fun t => nth t (fa_sp c) [] in
   capa_trace_finite F64_tiny Sc Sp (fa_ac c) (fa_ap c) (fa_bc c) (fa_bp c) (fa_m c) (fa_M c) (fa_m c - 1) (fa_n c).
+
+(** END TO END, squared-error cost on one column (Properties/C02_binary64_l2.v): from the float DATA -- no score table handed over -- the binary64 kernel twin
+    [l2_cost_F] feeds the binary64 PELT loop; the result must be the implementation's changepoints and scores bit for bit, and all four boolean premises of
+    [C02_binary64_l2_end_to_end_all_premises_boolean] must evaluate to true. *)
+From SK Require Import Check.FloatKernelCheck Proofs.FloatRefine Proofs.PeltFloatL2.
+Record fpl2_case := { f2_xs : list float; f2_pen : float; f2_m : nat; f2_mag : float; f2_b : float; f2_cpts : list nat; f2_scores : list float }.
+Definition fpl2_case_ok (c : fpl2_case) : bool :=
+  let '(sc, cp) := gpelt F64 (l2_cost_F (f2_xs c)) (f2_pen c) (f2_m c) (f2_m c - 1) (length (f2_xs c)) in
+  flist_same sc (f2_scores c) && nlist_same cp (f2_cpts c).
+Definition fpl2_case_premise (c : fpl2_case) : bool :=
+  let n := length (f2_xs c) in
+  l2_all_trace_ok (f2_xs c) && pelt_trace_finite (l2_cost_F (f2_xs c)) (f2_pen c) (f2_m c) (f2_m c - 1) n
+  && pelt_mag_ok (l2_cost_F (f2_xs c)) (f2_pen c) (f2_m c) (f2_m c - 1) n (f2_mag c) && l2_absmax_ok (f2_xs c) (f2_b c).
